@@ -274,7 +274,7 @@ def run(ctx):
         rule="submitting context x target flavour x adopt/service x arguments x submission "
              "time; queued payloads and services 0..2 per flavour; pairs of submitters; adopt "
              "racing a shutdown with a shielded cleanup; every schedule within the deviation "
-             "bound; non-trivial = more than one schedule executed",
+             "bound; non-trivial = a schedule with at least one deviation from the default one (all explored schedules are distinct)",
         bounds={"deviation_bound": bound, "granularity": "synchronisation operations" + (
             "" if ctx.quick else "; source lines of the runner package at bound 1 for the "
             "race, two-submitter and late-service scenarios"),
